@@ -34,7 +34,7 @@ META = {
     "proved for every statement tree, every valuation of conditions/selectors/run signals and every FSM/register "
     "state; the model is tied to the code by comparing every witness of random placement trees (nested transaction "
     "and method bodies, raw AvoidedIf, If/Elif/Else on 1-3 bit conditions, Switch, FSM incl. m.next) under all valuations of <= 10 input "
-    "bits (random valuations above), with the run signals sampled from the real Transaction.run/Method.run",
+    "bits (random valuations above), each assignment written as m.d.<dom> or m.d[\"<dom>\"] at random, with the run signals sampled from the real Transaction.run/Method.run",
     "level_note": "trusted: Lean kernel, axioms propext/Quot.sound/Classical.choice; Amaranth's If/Switch/FSM semantics "
     "(modelled as first-match chains) and pysim; the harness glue (tree -> real API calls). Hypothesis t.wf (distinct "
     "State names per FSM) is enforced by Amaranth (NameError, replayed as a directed case). Not covered: an "
@@ -229,6 +229,9 @@ class _Built:
         cw = lst("cw") + [1] * nconds  # widths of the condition inputs (default 1)
         nqs = sum({"T": 1, "M": 2, "A": 1}[k] for k in self.kinds)
         qw = lst("qw") + [1] * nqs  # widths of the ready / request / raw run inputs
+        # per witness id: 1 = item syntax `m.d["av_comb"] += …`, 0 = attribute syntax `m.d.av_comb += …`
+        ix = tk.get("ix", "-")
+        self.item_syntax = [] if ix == "-" else [ch == "1" for ch in ix]
         built = self
 
         class Dut(Elaboratable):
@@ -255,14 +258,27 @@ class _Built:
                     k = it[0]
                     if k == "w":
                         sig = self.w[it[2]]
+                        item = it[2] < len(built.item_syntax) and built.item_syntax[it[2]]
                         if it[1] == "c":
-                            m.d.comb += sig.eq(1)
+                            if item:
+                                m.d["comb"] += sig.eq(1)
+                            else:
+                                m.d.comb += sig.eq(1)
                         elif it[1] == "s":
-                            m.d.sync += sig.eq(~sig)
+                            if item:
+                                m.d["sync"] += sig.eq(~sig)
+                            else:
+                                m.d.sync += sig.eq(~sig)
                         elif it[1] == "a":
-                            m.d.av_comb += sig.eq(1)
+                            if item:
+                                m.d["av_comb"] += sig.eq(1)
+                            else:
+                                m.d.av_comb += sig.eq(1)
                         else:
-                            m.d.top_comb += sig.eq(1)
+                            if item:
+                                m.d["top_comb"] += sig.eq(1)
+                            else:
+                                m.d.top_comb += sig.eq(1)
                     elif k == "n":
                         m.next = f"S{it[2]}"
                     elif k == "I":
@@ -593,9 +609,9 @@ class _Gen:
         return items
 
 
-def cfg_of(tree, kinds, selw, nc, cw, qw) -> str:
+def cfg_of(tree, kinds, selw, nc, cw, qw, ix="-") -> str:
     j = lambda l: ",".join(map(str, l)) or "-"  # noqa: E731
-    return f"cfg t={ser(tree)} k={''.join(kinds) or '-'} sw={j(selw)} nc={nc} cw={j(cw)} qw={j(qw)}"
+    return f"cfg t={ser(tree)} k={''.join(kinds) or '-'} sw={j(selw)} nc={nc} cw={j(cw)} qw={j(qw)} ix={ix}"
 
 
 def stimulus(rng: random.Random, cw: list[int], selw: list[int], qw: list[int], fsms, max_cycles: int, force_p: float):
@@ -643,11 +659,14 @@ def finish_case(cfg: str, lines: list[str], tag: str, desc: dict) -> Case:
     return case
 
 
-def tree_case(tree, kinds, selw, nc, rng, max_cycles, tag, force_p=0.3, cw=None, qw=None) -> Case:
+def tree_case(tree, kinds, selw, nc, rng, max_cycles, tag, force_p=0.3, cw=None, qw=None, ix=None) -> Case:
     nq = sum({"T": 1, "M": 2, "A": 1}[k] for k in kinds)
     cw = list(cw) if cw is not None else [1] * nc
     qw = list(qw) if qw is not None else [1] * nq
-    cfg = cfg_of(tree, kinds, selw, nc, cw, qw)
+    if ix is None:  # attribute vs item syntax of `m.d`, at random per witness
+        nwit = 1 + max([leaf[2] for leaf, _ in placements(tree) if leaf[0] == "w"], default=-1)
+        ix = "".join(rng.choice("01") for _ in range(nwit)) or "-"
+    cfg = cfg_of(tree, kinds, selw, nc, cw, qw, ix)
     fsms = fsm_list(tree)
     lines, full = stimulus(rng, cw, selw, qw, fsms, max_cycles, force_p)
     pl = placements(tree)
@@ -683,8 +702,8 @@ def directed(rng, max_cycles) -> list[Case]:
     # 1. the four domains directly inside a transaction body under If / Elif / Else
     four = lambda k: [_w("c", k), _w("s", k + 1), _w("a", k + 2), _w("t", k + 3)]  # noqa: E731
     t1 = [("I", [(0, [("B", 0, four(0))]), (1, four(4)), (None, [("B", 1, four(8))])])]
-    cases.append(tree_case(t1, ["T", "M"], [], 2, rng, max_cycles, "directed", cw=[2, 3]))
-    cases.append(tree_case(t1, ["T", "M"], [], 2, rng, max_cycles, "directed"))
+    cases.append(tree_case(t1, ["T", "M"], [], 2, rng, max_cycles, "directed", cw=[2, 3], ix="1" * 12))
+    cases.append(tree_case(t1, ["T", "M"], [], 2, rng, max_cycles, "directed", ix="0" * 12))
     # 2. bodies nested three deep (transaction > method > raw AvoidedIf), conditions between them
     t2 = [("B", 0, four(0) + [("I", [(0, [("B", 1, four(4) + [("I", [(1, [("B", 2, four(8))])])])])])])]
     cases.append(tree_case(t2, ["T", "M", "A"], [], 2, rng, max_cycles, "directed", cw=[2, 1], qw=[1, 1, 1, 2]))
@@ -763,7 +782,8 @@ def more_cases(case: Case, rng):
     selw = [] if tk.get("sw", "-") == "-" else [int(x) for x in tk["sw"].split(",")]
     for _ in range(3):
         ints = lambda key: None if tk.get(key, "-") == "-" else [int(x) for x in tk[key].split(",")]  # noqa: E731
-        yield tree_case(tree, kinds, selw, int(tk.get("nc", "0")), rng, 1024, "search", cw=ints("cw"), qw=ints("qw"))
+        yield tree_case(tree, kinds, selw, int(tk.get("nc", "0")), rng, 1024, "search", cw=ints("cw"), qw=ints("qw"),
+                        ix=tk.get("ix"))
     for _ in range(40):
         yield random_case(rng.getrandbits(48), 8, 6, 3, 256, "search")
 
